@@ -414,6 +414,10 @@ def run(ctx):
         p = int(rng.integers(1, ctx.q(12, 30))); N = p + int(rng.integers(4, 40))
         x = rng.standard_normal(N) + 1j * rng.standard_normal(N)
         r = np.array([np.sum(x[k:] * np.conj(x[:N - k])) / N for k in range(p + 1)]); r[0] = np.real(r[0]) * 1.05
+        if it % 4 == 1 and p >= 2:
+            # structured positive-definite systems whose recursions meet EXACT zeros (white, even lags only, geometric, one lag)
+            from props._loopir import structured_acorr
+            r = structured_acorr(rng, p); ctx.count('search/structured-system')
         zk = str(rng.choice(['complex', 'complex', 'real', 'int']))
         if zk == 'complex':
             Z = rng.standard_normal(p + 1) + 1j * rng.standard_normal(p + 1)
